@@ -3,6 +3,7 @@ package checks
 import (
 	"fmt"
 	"math"
+	"strconv"
 	"strings"
 
 	"verif/internal/fw"
@@ -35,6 +36,30 @@ func stringProducers(s string) []producer {
 	}
 	if strings.TrimSpace(s) == s {
 		ps = append(ps, producer{"input", func() *model.N { return model.CallN(model.BiInput) }, s + "\n"})
+	}
+	// every split of the text into two parts (either may be empty), each part as a string, and as a
+	// number wherever the part is exactly what that number is rendered as
+	asNumber := func(t string) (float64, bool) {
+		if t == "" || len(t) > 17 {
+			return 0, false
+		}
+		v, err := strconv.ParseFloat(t, 64)
+		if err != nil || math.IsInf(v, 0) || math.IsNaN(v) || v < 0 || model.FormatNum(v) != t {
+			return 0, false
+		}
+		return v, true
+	}
+	if len(rs) <= 12 {
+		for cut := 0; cut <= len(rs); cut++ {
+			l, r := string(rs[:cut]), string(rs[cut:])
+			ps = append(ps, producer{fmt.Sprintf("split@%d:text+text", cut), func() *model.N { return model.Grp(model.Bin("+", model.Str(l), model.Str(r))) }, ""})
+			if v, ok := asNumber(l); ok {
+				ps = append(ps, producer{fmt.Sprintf("split@%d:number+text", cut), func() *model.N { return model.Grp(model.Bin("+", model.Num(v), model.Str(r))) }, ""})
+			}
+			if v, ok := asNumber(r); ok {
+				ps = append(ps, producer{fmt.Sprintf("split@%d:text+number", cut), func() *model.N { return model.Grp(model.Bin("+", model.Str(l), model.Num(v))) }, ""})
+			}
+		}
 	}
 	if s == "12" {
 		ps = append(ps, producer{"number-to-text", func() *model.N { return model.Grp(model.Bin("+", model.Str(""), model.Num(12))) }, ""})
